@@ -87,6 +87,8 @@ class OWElement(MemoryElement):
         test_crc = crc32(data[:-1]) & 0x0ff
         elem_data = data[2:-1]
         if test_crc == crc:
+            # The memory content replaces what was known before
+            self.elements = {}
             while len(elem_data) > 0:
                 (eid, elen) = struct.unpack('BB', elem_data[:2])
                 self.elements[self.element_mapping[eid]] = \
